@@ -1,4 +1,15 @@
-// C10 harness: instantiations for the enum with 1 enumerator (8/16/32/64-bit words)
+// C10 harness: the executable for the enum with 1 enumerator, stored in 8/16/32/64-bit
+// words (driver and main: c10_bitfield.hpp; compiled a second time, with C10_OBSERVED, by
+// c10_bitfield_x1.cpp for the record kinds outside the statement)
 #include "c10_bitfield.hpp"
 
-int c10_run_n1(int const w, c10_args const &a) { return run_enum<e1>(w, a); }
+namespace
+{
+enum class e1
+{
+  v0,
+  fcppt_maximum = v0
+};
+}
+
+C10_MAIN(e1)
